@@ -178,6 +178,34 @@ func runC06(c *Ctx) {
 		add(fmt.Sprintf("tailalign=%d", pad), caEC, CRLOpts{IssuerRaw: issuerWithPad("tail", pad), Entries: c06Entries(r, 118, false)}, "der")
 		add(fmt.Sprintf("tailalign-noexts=%d", pad), caEC, CRLOpts{NoExts: true, IssuerRaw: issuerWithPad("tail", pad), Entries: c06Entries(r, 121, false)}, "der")
 	}
+	// multi-byte length fields split by a buffer edge: documents with many long-form lengths in the tail (RSA
+	// signature, a 300-byte private extension: [0], SEQUENCE OF, Extension, extnValue, BIT STRING all carry two
+	// length bytes) and in the list (entries over 255 bytes are not produced by real CAs; the tail is what
+	// matters), kept for every issuer padding that puts the edge at 4096 INSIDE the length bytes of some field;
+	// the same documents as PEM for every phase of the 48-byte decoded line
+	straddles := 0
+	for n := 120; n <= 190; n++ {
+		for pad := 0; pad < 22; pad++ { // entries are 22 bytes: (n, pad) reaches every offset
+			o := CRLOpts{IssuerRaw: issuerWithPad("straddle", pad), ExtraExtPad: 300, Entries: c06Entries(r, n, false)}
+			d := caRSA.MakeDoc(o)
+			hit := false
+			for _, f := range longLengthFields(d.DER(), 0) {
+				for sp := 1; sp < f[1]; sp++ {
+					if (f[0]+sp)%4096 == 0 {
+						hit = true
+					}
+				}
+			}
+			if hit {
+				straddles++
+				add(fmt.Sprintf("lenstraddle=%d/%d", n, pad), caRSA, o, "der")
+			}
+		}
+	}
+	for pad := 0; pad < 48; pad++ {
+		add(fmt.Sprintf("lenstraddle-pem=%d", pad), caRSA, CRLOpts{IssuerRaw: issuerWithPad("straddle", pad), ExtraExtPad: 300, Entries: c06Entries(r, 110, false)}, "pemlf")
+	}
+	c.Rep.Extra["documents_with_a_length_field_split_at_4096"] = straddles
 	// must be rejected: unhandled critical extension, unknown version
 	add("critical-ext", caEC, CRLOpts{CriticalExt: asn1.ObjectIdentifier{2, 5, 29, 27}, Entries: c06Entries(r, 3, true)}, "der", "pemlf")
 	add("critical-ext-idp", caEC, CRLOpts{CriticalExt: asn1.ObjectIdentifier{2, 5, 29, 28}}, "der")
@@ -221,7 +249,40 @@ func runC06(c *Ctx) {
 	}
 	c06EmitCoq(c, cases)
 	c.Rep.Cases = len(cases)
-	c.Rep.Rule = "generated CRL documents: entry counts, v1/v2, with/without crlExtensions/nextUpdate/CRL number/AKI, serial widths 1..20, UTCTime and GeneralizedTime dates, reason and invalidity-date extensions, all ten signature algorithms, long-form lengths around 128/256/65536, issuer shapes, DER / PEM-LF / PEM-CRLF, issuer padding sweeps moving every element boundary across the 4096-byte buffer window and the PEM line phase; each compared field by field with encoding/asn1's whole-document decoding; distinct by (document kind, format)"
+	c.Rep.Rule = "generated CRL documents: entry counts, v1/v2, with/without crlExtensions/nextUpdate/CRL number/AKI, serial widths 1..20, UTCTime and GeneralizedTime dates, reason and invalidity-date extensions, all ten signature algorithms, long-form lengths around 128/256/65536, issuer shapes, DER / PEM-LF / PEM-CRLF, issuer padding sweeps moving every element boundary across the 4096-byte buffer window and the PEM line phase, and documents in which the 4096 edge falls inside a two-byte length field (every such padding of an RSA-signed document with a 300-byte extension) plus the same in PEM for all 48 line phases; each compared field by field with encoding/asn1's whole-document decoding; distinct by (document kind, format)"
+}
+
+// longLengthFields lists [offset of the first length byte after 0x8k, k] for every long-form length with k >= 2
+// in the DER structure starting at base (constructed values are descended into).
+func longLengthFields(der []byte, base int) [][2]int {
+	var out [][2]int
+	for i := 0; i+2 <= len(der); {
+		tag := der[i]
+		l := int(der[i+1])
+		hdr := 2
+		if l&0x80 != 0 {
+			k := l & 0x7f
+			if k == 0 || i+2+k > len(der) {
+				return out
+			}
+			l = 0
+			for _, b := range der[i+2 : i+2+k] {
+				l = l<<8 | int(b)
+			}
+			if k >= 2 {
+				out = append(out, [2]int{base + i + 2, k})
+			}
+			hdr = 2 + k
+		}
+		if i+hdr+l > len(der) {
+			return out
+		}
+		if tag&0x20 != 0 {
+			out = append(out, longLengthFields(der[i+hdr:i+hdr+l], base+i+hdr)...)
+		}
+		i += hdr + l
+	}
+	return out
 }
 
 func bucket(n int) string {
